@@ -21,7 +21,7 @@ func init() {
 				bound := 2
 				shards = 4
 				// the 48->256 grow loops over 256 slots (~1.5k points): bound 1 in the quick tier, 2 in thorough
-				if sc.Name == "private-2/n48up-n48up-prefilled" || sc.Name == "readers-2/uint8-wide" || sc.Name == "private-2/collation-collation" || strings.HasPrefix(sc.Name, "readers-2/alpha-every-query") {
+				if sc.Name == "private-2/n48up-n48up-prefilled" || strings.HasPrefix(sc.Name, "readers-2/uint8-wide") || sc.Name == "private-2/collation-collation" || strings.HasPrefix(sc.Name, "readers-2/alpha-every-query") {
 					if tier == "thorough" {
 						shards = 16
 					} else {
